@@ -19,7 +19,10 @@ TABLE = [
     ("EPOCH_YEARS", "statime-csptp/src/source.rs", r"const EPOCH_OFFSET: u32 = \((\d+) \* 365 \+ \d+\) \* 86400;", "int"),
     ("EPOCH_LEAP_DAYS", "statime-csptp/src/source.rs", r"const EPOCH_OFFSET: u32 = \(\d+ \* 365 \+ (\d+)\) \* 86400;", "int"),
     # panic-site census of the modelled files (a new unwrap/expect/panic!/assert! changes a count)
-    ("PANIC_SITES_SOURCE", "statime-csptp/src/source.rs", r"\.unwrap\(\)|\.expect\(|panic!|unreachable!|\bassert(?:_eq|_ne)?!", "count"),
+    # (the expect that ends add_correction on the unrepaired tree is the C44 defect itself and is found by the
+    #  correspondence; it is left out so that the generated file is the same for /repo and the repaired tree)
+    ("PANIC_SITES_SOURCE", "statime-csptp/src/source.rs",
+     r"\.unwrap\(\)|\.expect\(\s*\"(?!Calculated nanoseconds)|panic!|unreachable!|\bassert(?:_eq|_ne)?!", "count"),
     ("PANIC_SITES_SERVER", "statime-csptp/src/server.rs", r"\.unwrap\(\)|\.expect\(|panic!|unreachable!|\bassert(?:_eq|_ne)?!", "count"),
     ("PANIC_SITES_TLV", "statime-wire/src/common/tlv.rs", r"\.unwrap\(\)|\.expect\(|panic!|unreachable!", "count"),
     ("PANIC_SITES_MESSAGES_MOD", "statime-wire/src/messages/mod.rs", r"\.unwrap\(\)|\.expect\(|panic!|unreachable!|\bassert(?:_eq|_ne)?!", "count"),
